@@ -2,19 +2,24 @@
 """(G) tie for C05: re-emit lean/CamVerif/Gen/FormulaTables.lean from the CURRENT
 genapi/src/formula.rs: the precedence ladder (one row per `parse_binop!` call, in call-chain
 order from `Parser::expr` down to `unop`), the function-name table of `Parser::primary`, the
-constant names of `next_float`, and shape checks of the `parse_binop!` macro, `expr`, `unop`
-and `pow` bodies the hand-written model mirrors.  Fails loudly (exit 2, Gen file replaced by
+constant names of `next_float`, and shape checks (token skeleton, locals alpha-normalised) of
+the `parse_binop!` macro and of `parse`, `expr`, `unop`, `pow`, `primary`, `eat`, `expect`,
+`next_integer`, `next_float`, `next_ident` — the parser functions the hand-written model
+mirrors.  The lexer and `Expr::eval` are NOT read by this generator (differential only).  Fails loudly (exit 2, Gen file replaced by
 one that does not elaborate) when a construct it relies on is not found."""
 import hashlib, os, re, sys
 REPO = os.environ.get("VERIF_REPO", "/repo")
 SRC = os.path.join(REPO, "genapi/src/formula.rs")
-OUT = os.path.join(os.path.dirname(os.path.dirname(os.path.abspath(__file__))), "lean/CamVerif/Gen/FormulaTables.lean")
+OUT = os.environ.get("VERIF_GEN_OUT") or os.path.join(os.path.dirname(os.path.dirname(os.path.abspath(__file__))), "lean/CamVerif/Gen/FormulaTables.lean")
 src = open(SRC).read()
 
 def die(msg):
     open(OUT, "w").write("/- GENERATED: tools/gen_formula_tables.py could not translate genapi/src/formula.rs:\n   %s -/\n"
                          "theorem CamVerif.Gen.FormulaTables.generator_refused : False := by decide\n" % msg)
-    print("gen_formula_tables: cannot translate: " + msg, file=sys.stderr); sys.exit(2)
+    print("gen_formula_tables: REFUSED — generator shape check only: the source no longer has a shape this generator "
+          "recognises; this by itself does not say the behaviour changed (the correspondence run decides): " + msg, file=sys.stderr)
+    print("GENERATOR-SHAPE-CHECK-ONLY C05 " + msg)
+    sys.exit(2)
 
 def lower(s): return s[0].lower() + s[1:]
 TOKENS = {"DoubleOr", "DoubleAnd", "Or", "Caret", "And", "Eq", "Ne", "Lt", "Le", "Gt", "Ge", "Shl", "Shr",
@@ -23,22 +28,75 @@ BINOPS = {"Add", "Sub", "Mul", "Div", "Rem", "Pow", "Shl", "Shr", "And", "Or", "
           "BitAnd", "BitOr", "Xor"}
 UNOPS = {"Not", "Abs", "Sgn", "Neg", "Sin", "Cos", "Tan", "Asin", "Acos", "Atan", "Exp", "Ln", "Lg", "Sqrt", "Trunc",
          "Floor", "Ceil", "Round"}
-def norm(s): return re.sub(r"\s+", " ", re.sub(r"//[^\n]*", "", s)).strip()
+# ---------------------------------------------------------------------------------------------
+# Shape comparison on a TOKEN SKELETON: comments dropped, string literals blanked, trailing commas
+# dropped, `Box::new(x)` read as `x.into()`, and every `let`-bound local renamed positionally
+# (`_v1`, `_v2`, …), so that renaming a local, reformatting or commenting does not refuse.
+# ---------------------------------------------------------------------------------------------
+TOK = re.compile(r'[A-Za-z_]\w*|\d+|"S"|::|=>|->|&&|\|\||==|!=|<=|>=|[^\s\w]')
+def skeleton(code):
+    code = re.sub(r"/\*.*?\*/", " ", code, flags=re.S)
+    code = re.sub(r"//[^\n]*", " ", code)
+    code = re.sub(r'"(?:[^"\\]|\\.)*"', '"S"', code)
+    code = re.sub(r"Box::new\((\w+)\)", r"\1.into()", code)
+    toks = TOK.findall(code)
+    toks = [t for k, t in enumerate(toks) if not (t == "," and k + 1 < len(toks) and toks[k + 1] in ("}", ")"))]
+    # binders: identifiers in a `let` pattern (between `let` and `=`/`:`) that are plain names;
+    # every binding occurrence gets a fresh positional name, later uses refer to the latest one
+    cur, count, out, k = {}, 0, [], 0
+    in_pat = False
+    while k < len(toks):
+        t = toks[k]
+        prev = toks[k - 1] if k else ""
+        nxt = toks[k + 1] if k + 1 < len(toks) else ""
+        if t == "let":
+            in_pat = True
+            out.append(t)
+        elif in_pat and t in ("=", ":"):
+            in_pat = False
+            out.append(t)
+        elif in_pat and re.fullmatch(r"[a-z_]\w*", t) and t not in ("mut", "ref", "self") and nxt not in ("::", "("):
+            count += 1
+            cur[t] = "_v%d" % count
+            out.append(cur[t])
+        else:
+            label = nxt == ":" and prev in ("{", ",")            # struct field label
+            if t in cur and prev not in (".", "$") and not label:
+                out.append(cur[t])
+            else:
+                out.append(t)
+        k += 1
+    return out
+
+def check_shape(what, got_code, want_code, mirrors):
+    g, w = skeleton(got_code), skeleton(want_code)
+    if g != w:
+        k = next((i for i, (a, b) in enumerate(zip(g, w)) if a != b), min(len(g), len(w)))
+        die("%s no longer has the shape the model's %s mirrors (token %d: found `%s`, expected `%s`)"
+            % (what, mirrors, k, " ".join(g[k:k + 6]), " ".join(w[k:k + 6])))
 
 def fn_body(name):
-    m = re.search(r"\n    fn %s\(&mut self\) -> Expr \{\n(.*?)\n    \}\n" % name, src, re.S)
+    m = re.search(r"\n    fn %s\(&mut self[^)]*\)(?: -> [^{]+)? \{\n(.*?)\n    \}\n" % name, src, re.S)
     if not m: die("fn %s not found" % name)
     return m.group(1)
+
+def cut_table(code):
+    """the name tables are extracted separately: blank the `match s.as_str() { … }` block"""
+    return re.sub(r"match s\.as_str\(\) \{.*?\n\s*\};", "TABLE;", code, flags=re.S)
 
 # --- the macro: first operand, then a loop that folds to the left -------------------------
 m = re.search(r"macro_rules! parse_binop \{(.*?)\n\}\n", src, re.S)
 if not m: die("macro parse_binop!")
-MACRO = ("($self:ident.$f:ident, ($token:expr, $op:expr) $(,($token_rep:expr, $op_rep:expr))*) => { { "
-         "let mut expr = $self.$f(); loop { let (op_kind, rhs) = if $self.eat(&$token) { ($op, $self.$f()) } "
-         "$(else if $self.eat(&$token_rep) { ($op_rep, $self.$f()) })* else { break; }; "
-         "expr = Expr::BinOp { kind: op_kind, lhs: expr.into(), rhs: rhs.into(), }; } expr } }")
-if norm(m.group(1)) != MACRO:
-    die("parse_binop! no longer has the shape the model's binLevel/binLoop mirror")
+check_shape("parse_binop!", m.group(1), """
+    ($self:ident.$f:ident, ($token:expr, $op:expr) $(,($token_rep:expr, $op_rep:expr))*) => { {
+        let mut expr = $self.$f();
+        loop {
+            let (op_kind, rhs) = if $self.eat(&$token) { ($op, $self.$f()) }
+                $(else if $self.eat(&$token_rep) { ($op_rep, $self.$f()) })* else { break; };
+            expr = Expr::BinOp { kind: op_kind, lhs: expr.into(), rhs: rhs.into() };
+        }
+        expr
+    } }""", "binLevel/binLoop")
 
 # --- the ladder ---------------------------------------------------------------------------
 rows = {}
@@ -48,13 +106,18 @@ for m in re.finditer(r"\n    fn (\w+)\(&mut self\) -> Expr \{\s*parse_binop!\(\s
         if t not in TOKENS: die("unknown token Token::" + t)
         if o not in BINOPS: die("unknown operator BinOpKind::" + o)
     rows[m.group(1)] = (m.group(2), pairs)
-expr_body = norm(fn_body("expr"))
-EXPR = ("let expr = self.%s(); if self.eat(&Token::Question) { let then = self.expr(); self.expect(&Token::Colon); "
-        "let else_ = self.expr(); Expr::If { cond: expr.into(), then: then.into(), else_: else_.into(), } } else { expr }")
-m = re.match(r"let expr = self\.(\w+)\(\);", expr_body)
+expr_body = fn_body("expr")
+m = re.search(r"=\s*self\.(\w+)\(\);", expr_body)
 if not m: die("Parser::expr does not start with a ladder call")
 first = m.group(1)
-if expr_body != EXPR % first: die("Parser::expr no longer has the shape the model's exprBody mirrors")
+check_shape("Parser::expr", expr_body, """
+    let expr = self.%s();
+    if self.eat(&Token::Question) {
+        let then = self.expr();
+        self.expect(&Token::Colon);
+        let else_ = self.expr();
+        Expr::If { cond: expr.into(), then: then.into(), else_: else_.into() }
+    } else { expr }""" % first, "exprBody")
 ladder, cur, seen = [], first, set()
 while cur in rows:
     if cur in seen: die("cyclic ladder at " + cur)
@@ -65,13 +128,53 @@ while cur in rows:
 if cur != "unop": die("the ladder ends in `%s`, expected `unop`" % cur)
 if len(seen) != len(rows): die("parse_binop! functions outside the call chain: %s" % sorted(set(rows) - seen))
 
-UNOP = ("if self.eat(&Token::Tilde) { let expr = self.unop(); Expr::UnOp { kind: UnOpKind::Not, expr: expr.into(), } } "
-        "else if self.eat(&Token::Minus) { let expr = self.unop(); Expr::UnOp { kind: UnOpKind::Neg, expr: expr.into(), } } "
-        "else if self.eat(&Token::Plus) { self.unop() } else { self.pow() }")
-if norm(fn_body("unop")) != UNOP: die("Parser::unop no longer has the shape the model's unopBody mirrors")
-POW = ("let expr = self.primary(); if self.eat(&Token::DoubleStar) { let rhs = self.unop(); "
-       "Expr::BinOp { kind: BinOpKind::Pow, lhs: expr.into(), rhs: rhs.into(), } } else { expr }")
-if norm(fn_body("pow")) != POW: die("Parser::pow no longer has the shape the model's powBody mirrors")
+check_shape("Parser::unop", fn_body("unop"), """
+    if self.eat(&Token::Tilde) { let expr = self.unop(); Expr::UnOp { kind: UnOpKind::Not, expr: expr.into() } }
+    else if self.eat(&Token::Minus) { let expr = self.unop(); Expr::UnOp { kind: UnOpKind::Neg, expr: expr.into() } }
+    else if self.eat(&Token::Plus) { self.unop() } else { self.pow() }""", "unopBody")
+check_shape("Parser::pow", fn_body("pow"), """
+    let expr = self.primary();
+    if self.eat(&Token::DoubleStar) {
+        let rhs = self.unop();
+        Expr::BinOp { kind: BinOpKind::Pow, lhs: expr.into(), rhs: rhs.into() }
+    } else { expr }""", "powBody")
+check_shape("Parser::primary", cut_table(fn_body("primary")), """
+    if self.eat(&Token::LParen) {
+        let expr = self.expr();
+        self.expect(&Token::RParen);
+        expr
+    } else if let Some(i) = self.next_integer() { Expr::Integer(i) }
+    else if let Some(f) = self.next_float() { Expr::Float(f) }
+    else {
+        let s = self.next_ident().unwrap();
+        if self.eat(&Token::LParen) {
+            let op = TABLE;
+            let expr = self.expr();
+            self.expect(&Token::RParen);
+            Expr::UnOp { kind: op, expr: expr.into() }
+        } else { Expr::Ident(s) }
+    }""", "primaryBody")
+check_shape("Parser::eat", fn_body("eat"), """
+    match self.lexer.peek() { Some(peek) if peek == tok => { self.lexer.next(); true } _ => false }""", "eat")
+check_shape("Parser::expect", fn_body("expect"), "assert!(self.eat(tok))", "expect (a failed expectation is a panic in every build profile)")
+check_shape("Parser::next_integer", fn_body("next_integer"), """
+    if let Some(&Token::Integer(i)) = self.lexer.peek() { self.lexer.next(); Some(i) } else { None }""", "primaryBody (integer token)")
+check_shape("Parser::next_float", cut_table(fn_body("next_float")), """
+    if let Some(&Token::Float(f)) = self.lexer.peek() { self.lexer.next(); Some(f) }
+    else if let Some(Token::Ident(s)) = self.lexer.peek() { let f = TABLE; self.lexer.next(); Some(f) }
+    else { None }""", "primaryBody (float token, constants)")
+check_shape("Parser::next_ident", fn_body("next_ident"), """
+    if let Some(Token::Ident(s)) = self.lexer.peek() { let s = s.to_string(); self.lexer.next(); Some(s) } else { None }""", "primaryBody (identifier token)")
+# `parse`: the whole text is one expression — a real assertion (not debug_assert!, not `let _ =`)
+m = re.search(r"pub fn parse\(s: &str\) -> Expr \{\n(.*?)\n\}\n", src, re.S)
+if not m: die("formula::parse not found")
+check_shape("formula::parse", m.group(1), """
+    debug!("S");
+    let lexer = Lexer::new(s);
+    let mut parser = Parser { lexer };
+    let expr = parser.expr();
+    assert!(parser.lexer.peek().is_none(), "S", s);
+    expr""", "parseToks (end-of-input assertion in every build profile)")
 
 # --- function names and constants ----------------------------------------------------------
 prim = fn_body("primary")
@@ -87,11 +190,6 @@ consts = re.findall(r'"(\w+)"\s*=>\s*std::f64::consts::(\w+),', m.group(1))
 if len(consts) != len(re.findall(r"=>", m.group(1))): die("constant arm of unknown shape")
 for n, c in consts:
     if n != c: die("constant %s bound to std::f64::consts::%s" % (n, c))
-# `parse` checks that nothing is left
-m = re.search(r"pub fn parse\(s: &str\) -> Expr \{(.*?)\n\}\n", src, re.S)
-if not m or "parser.expr()" not in m.group(1) or "parser.lexer.peek().is_none()" not in m.group(1):
-    die("formula::parse no longer is `expr()` followed by the end-of-input assertion")
-
 h = hashlib.sha1(src.encode()).hexdigest()[:16]
 L = ["/- GENERATED by tools/gen_formula_tables.py from genapi/src/formula.rs — do not edit.",
      "   Regenerated on every check run; Props/C05.lean proves the model's tables equal these. -/",
